@@ -3,6 +3,7 @@ package harness
 import (
 	"bytes"
 	"fmt"
+	"math"
 	"strings"
 	"syscall"
 
@@ -129,6 +130,10 @@ func sweepProgram(c *sim.RunCtx, src []byte, wellBehaved bool, gaps []int, nontr
 				ns = append(ns, n)
 			}
 		}
+	}
+	if !runaway {
+		// budgets at the far end of the range: arithmetic on them must not wrap
+		ns = append(ns, math.MaxInt, math.MaxInt-1, 1<<31, 1<<32+1)
 	}
 	// the budget may also be set (or changed) between two calls on the same
 	// interpreter: it then applies to the cumulative count from there on
@@ -344,6 +349,11 @@ var limitShapes = []limitShape{
 	{"loop-push-above-dict-mark", "<< { /a 1 } loop", []string{"stackoverflow"}, false, ""},
 	{"for-push-above-open-bracket", "[ 0 1 1000000 { } for", []string{"stackoverflow"}, false, ""},
 	{"recursion-push-above-mark", "mark /f { 1 f } def f", []string{"stackoverflow", "execstackoverflow"}, false, ""},
+	{"array-real-size", "1e5 array", []string{"typecheck", "limitcheck", "rangecheck"}, false, ""},
+	{"string-real-size", "70000.0 string", []string{"typecheck", "limitcheck", "rangecheck"}, false, ""},
+	{"dict-real-size", "65536 1.0 add dict", []string{"typecheck", "limitcheck", "rangecheck"}, false, ""},
+	{"array-huge-real-size", "4e18 array", []string{"typecheck", "limitcheck", "rangecheck"}, false, ""},
+	{"string-real-size-in-loop", "{ 1e6 string } loop", []string{"typecheck", "limitcheck", "rangecheck"}, false, ""},
 	{"type1.Read-runaway-loop", "%!\n{ } loop", []string{"budget"}, false, "type1.Read"},
 	{"type1.Read-runaway-recursion", "%!\n/f { f 1 } def f", []string{"execstackoverflow"}, false, "type1.Read"},
 	{"type1.Read-runaway-push", "%!\n{ 1 } loop", []string{"stackoverflow"}, false, "type1.Read"},
